@@ -22,7 +22,7 @@ from concurrent.futures import ThreadPoolExecutor
 
 ROOT = os.path.dirname(os.path.dirname(os.path.abspath(__file__)))
 EVDIR = tempfile.mkdtemp(prefix="seeded-evidence-")   # never the committed evidence directory
-EXTRA = {"S-C04-2": ["C07"]}     # a change meant for one property that only a sibling can see
+EXTRA = {"S-C04-2": ["C07"], "S-C11-4": ["C13", "C12", "C09"]}     # a change meant for one property that only a sibling can see
 
 
 def sh(cmd, **kw):
